@@ -1,6 +1,6 @@
 """Confirm sub-agent mutants in a scratch worktree and file them under /verif/seeded/.
 usage: confirm_mutants.py [--round2] <PID> [<PID> ...]
-   (reads /tmp/mut/out_<PID>/mutant{k}.diff, demo{k}.py, meta{k}.json; with --round2 reads /tmp/mut2/ and files them as _m3, _m4)"""
+   (reads /tmp/mut/out_<PID>/mutant{k}.diff, demo{k}.py, meta{k}.json; with --round2 (/tmp/mut2, _m3/_m4) or --round3 (/tmp/mut3, _m5/_m6))"""
 import json
 import shutil
 import subprocess
@@ -18,9 +18,10 @@ def sh(cmd, cwd=None, timeout=1800):
 def main():
     args = sys.argv[1:]
     round2 = "--round2" in args
-    args = [a for a in args if a != "--round2"]
+    round3 = "--round3" in args
+    args = [a for a in args if a not in ("--round2", "--round3")]
     for pid in args:
-        out = Path(f"/tmp/mut2/out_{pid}" if round2 else f"/tmp/mut/out_{pid}")
+        out = Path(f"/tmp/mut3/out_{pid}" if round3 else (f"/tmp/mut2/out_{pid}" if round2 else f"/tmp/mut/out_{pid}"))
         for k in (1, 2, 3):
             diff = out / f"mutant{k}.diff"
             if not diff.exists():
@@ -39,7 +40,7 @@ def main():
                                  demo_mutant_exit_confirmed=rc_mut, suite_tail_with_mutant=t_out.strip().splitlines()[-2:],
                                  what_i_ran=[f"git worktree add {wt} HEAD", f"demo on clean -> {rc_clean}", "git apply patch.diff",
                                              f"demo on mutant -> {rc_mut}", "pytest full suite (3 baseline-failing tests deselected)"]))
-                dst = Path(f"/verif/seeded/{pid}_m{k + 2 if round2 else k}")
+                dst = Path(f"/verif/seeded/{pid}_m{k + 4 if round3 else (k + 2 if round2 else k)}")
                 dst.mkdir(parents=True, exist_ok=True)
                 shutil.copy(diff, dst / "patch.diff")
                 shutil.copy(out / f"demo{k}.py", dst / "demo.py")
